@@ -164,6 +164,36 @@ VIndex(A, lists) ==
            LAMBDA o : AtS(A, st, [a \in 1..r |-> IF lists[a] # <<>> THEN PosInt(lists[a][o[1] + 1], A.shape[a])
                                                 ELSE o[1 + (CHOOSE j \in 1..Len(kept) : kept[j] = a)]]))
 
+\* numpy.diagonal(A, offset, axis1, axis2): the two axes are removed and the diagonal axis is appended last
+Diagonal(A, off, ax1, ax2) ==
+  LET r == Len(A.shape)
+      st == StridesOf(A.shape)
+      n1 == A.shape[ax1]
+      n2 == A.shape[ax2]
+      dl == IF off >= 0 THEN Max2(Min2(n1, n2 - off), 0) ELSE Max2(Min2(n1 + off, n2), 0)
+      kept == SelectSeq([a \in 1..r |-> a], LAMBDA a : a # ax1 /\ a # ax2)
+      oshape == [j \in 1..(Len(kept) + 1) |-> IF j <= Len(kept) THEN A.shape[kept[j]] ELSE dl]
+  IN Build(oshape, A.kind,
+           LAMBDA o : LET i == o[Len(kept) + 1] IN
+                        AtS(A, st, [a \in 1..r |-> IF a = ax1 THEN (IF off >= 0 THEN i ELSE i - off)
+                                                  ELSE IF a = ax2 THEN (IF off >= 0 THEN i + off ELSE i)
+                                                  ELSE o[CHOOSE j \in 1..Len(kept) : kept[j] = a]]))
+
+\* map_overlap with a local stencil of radius r along one axis:  out[i] = ext(i - r) + A[i] + ext(i + r), where ext reads
+\* A inside the axis and follows the boundary rule outside ("nearest" and "none": the edge element; "reflect": mirrored
+\* INCLUDING the edge (d c b a | a b c d); "periodic": wrapped; "constant": 0).  Requires r <= length of the axis.
+Stencil(A, ax, r, mode) ==
+  LET st == StridesOf(A.shape)
+      n == A.shape[ax]
+      k == A.kind
+      at(o, p) == AtS(A, st, [b \in 1..Len(o) |-> IF b = ax THEN p ELSE o[b]])
+      ext(o, p) == IF 0 <= p /\ p < n THEN at(o, p)
+                   ELSE IF mode = "constant" THEN VZero(k)
+                   ELSE IF mode = "periodic" THEN at(o, p % n)
+                   ELSE IF mode = "reflect" THEN (IF p < 0 THEN at(o, -p - 1) ELSE at(o, 2 * n - p - 1))
+                   ELSE (IF p < 0 THEN at(o, 0) ELSE at(o, n - 1))
+  IN Build(A.shape, k, LAMBDA o : VAdd(VAdd(ext(o, o[ax] - r), at(o, o[ax]), k), ext(o, o[ax] + r), k))
+
 \* 1-D boolean mask applied along one axis = take of the true positions
 MaskAxis(A, M, ax) ==
   Take(A, SelectSeq([k \in 1..Len(M.data) |-> k - 1], LAMBDA p : M.data[p + 1] # 0), ax)
@@ -303,14 +333,14 @@ Where(C, X, Y) ==
 \* The flat (reference) reduction of a sequence of values of kind k.
 \* Result record [v, kind].  Empty input: identity where NumPy has one, "err" otherwise.
 RedOps == {"sum", "prod", "min", "max", "any", "all", "mean", "var", "count_nonzero",
-           "argmin", "argmax", "nansum", "nanmin", "nanmax", "nanmean", "ptp"}
+           "argmin", "argmax", "nansum", "nanmin", "nanmax", "nanmean", "ptp", "nanargmin", "nanargmax"}
 RedKind(op, k) ==
   CASE op \in {"any", "all"} -> "b"
     [] op \in {"mean", "var", "nanmean"} -> "f"
-    [] op \in {"count_nonzero", "argmin", "argmax"} -> "i"
+    [] op \in {"count_nonzero", "argmin", "argmax", "nanargmin", "nanargmax"} -> "i"
     [] op \in {"sum", "prod", "nansum"} -> (IF k = "b" THEN "i" ELSE k)
     [] OTHER -> k
-RedNeedsNonEmpty(op) == op \in {"min", "max", "argmin", "argmax", "nanmin", "nanmax", "ptp"}
+RedNeedsNonEmpty(op) == op \in {"min", "max", "argmin", "argmax", "nanmin", "nanmax", "ptp", "nanargmin", "nanargmax"}
 
 NonNaN(vals, k) == IF k = "f" THEN SelectSeq(vals, LAMBDA v : ~QIsNaN(v)) ELSE vals
 HasNaN(vals, k) == k = "f" /\ \E j \in 1..Len(vals) : QIsNaN(vals[j])
@@ -346,6 +376,14 @@ RedSeq(op, vals, k) ==
     [] op = "var" -> SeqVar(vals, k)
     [] op = "argmin" -> ArgExt(vals, k, FALSE)
     [] op = "argmax" -> ArgExt(vals, k, TRUE)
+    \* NaN-ignoring arg reductions: first position of the extreme among the non-NaN values (an all-NaN lane is an error:
+    \* see NanArgOK; -1 is never observed)
+    [] op \in {"nanargmin", "nanargmax"} ->
+         LET nn == NonNaN(vals, k) IN
+         IF nn = <<>> THEN -1
+         ELSE LET best == IF op = "nanargmax" THEN SeqMax(nn, k) ELSE SeqMin(nn, k)
+              IN (CHOOSE j \in 1..Len(vals) : ~VIsNaN(vals[j], k) /\ VEq(vals[j], best, k)
+                                                /\ \A q \in 1..(j - 1) : VIsNaN(vals[q], k) \/ ~VEq(vals[q], best, k)) - 1
     [] op = "nansum" -> SeqSum(NonNaN(vals, k), sk)
     [] op = "nanmean" -> IF NonNaN(vals, k) = <<>> THEN QNaN ELSE SeqMean(NonNaN(vals, k), k)
     [] op = "nanmin" -> IF NonNaN(vals, k) = <<>> THEN QNaN ELSE SeqMin(NonNaN(vals, k), k)
@@ -368,8 +406,12 @@ Reduce(op, A, axes, keepdims) ==
       vals(o) == [m \in 1..Size(rshape) |-> AtS(A, st, inix(o, UnravelS(m - 1, rshape, rst)))]
   IN Build(oshape, RedKind(op, A.kind), LAMBDA o : RedSeq(op, vals(o), A.kind))
 
-\* is the reduction defined (NumPy raises on empty min/max/arg*)?
-ReduceOK(op, A, axes) == ~(RedNeedsNonEmpty(op) /\ \E b \in axes : A.shape[b] = 0)
+\* NumPy raises "All-NaN slice encountered" for nanargmin / nanargmax when some lane holds only NaNs
+IsNaNArr(A) == Arr(A.shape, [j \in 1..Len(A.data) |-> B(VIsNaN(A.data[j], A.kind))], "b")
+NanArgOK(op, A, axes) ==
+  op \notin {"nanargmin", "nanargmax"} \/ \A j \in 1..Len(Reduce("all", IsNaNArr(A), axes, FALSE).data) : Reduce("all", IsNaNArr(A), axes, FALSE).data[j] = 0
+\* is the reduction defined (NumPy raises on empty min/max/arg*, and on all-NaN lanes for nanarg*)?
+ReduceOK(op, A, axes) == ~(RedNeedsNonEmpty(op) /\ \E b \in axes : A.shape[b] = 0) /\ (Size(A.shape) = 0 \/ NanArgOK(op, A, axes))
 
 \* arg reductions with axis=None operate on the flattened array
 ArgFlat(op, A) == Arr(<<>>, <<RedSeq(op, A.data, A.kind)>>, "i")
